@@ -125,14 +125,14 @@ Say(v, why, at) == PrintT(<<"VMV", ToJson([id |-> P.id, v |-> v, why |-> why, at
 RECURSIVE MatchV(_, _)
 \* does the recorded value j (JSON projection) equal the machine's value v (reified) ?
 MatchV(v, j) ==
-  CASE j.k \in {"deep", "any"} \/ v.k \in {"any", "deep", "none"} -> TRUE
+  CASE j.k \in {"deep", "any", "anystr"} \/ v.k \in {"any", "deep", "none"} -> TRUE      \* (either side may be vague)
     [] v.k = "anystr" -> j.k = "str"
     [] v.k = "float" -> j.k = "float" /\ (v.c = "oom" \/ j.c = "oom" \/ (v.c = j.c /\ v.m = j.m /\ v.e = j.e))
     [] v.k = "arr" -> j.k = "arr" /\ Len(v.v) = Len(j.v) /\ \A i \in 1..Len(v.v) : MatchV(v.v[i], j.v[i])
     [] v.k = "map" -> /\ j.k = "map" /\ Len(v.v) = Len(j.v)
                       /\ \A i \in 1..Len(v.v) : \E n \in 1..Len(j.v) : MatchV(v.v[i][1], j.v[n][1]) /\ MatchV(v.v[i][2], j.v[n][2])
     [] v.k = "fn" -> j.k = "fn"
-    [] v.k = "eobj" -> j.k = "err"
+    [] v.k = "eobj" -> j.k \in {"err", "eobj"}
     [] v.k = "null" -> j.k = "null"
     [] OTHER -> j.k = v.k /\ j.v = v.v
 
